@@ -1,7 +1,8 @@
 SPECIFICATION Spec
 CONSTANTS
-  MaxSteps = 3
-  Dom = {0, 1, 2}
+  MaxSteps = 2
+  Dom = {0, 2}
   MaxLen = 1
+  Fuel = 8
 INVARIANT Inv
 CHECK_DEADLOCK FALSE
